@@ -70,6 +70,12 @@ func (c *concurrencyOperator) Next(ctx context.Context) ([]model.StepVector, err
 
 func (c *concurrencyOperator) pull(ctx context.Context) {
 	defer close(c.buffer)
+	// A panic on this goroutine would take down the whole process.
+	defer func() {
+		if r := recover(); r != nil {
+			c.buffer <- maybeStepVector{err: panicToError(r)}
+		}
+	}()
 
 	for {
 		select {
